@@ -235,6 +235,29 @@ def canonical(obj):
 # the rig: real frontend actor + client loop
 
 
+NODELAY_FAIL = set()   # client ids whose server-side set_nodelay raises OSError at connect
+
+
+def install_nodelay_fault():
+    """Connect-time fault: the server-side WebSocket protocol object's set_nodelay (what
+    WebSocketHandler.set_nodelay -> stream.set_nodelay(TCP_NODELAY) goes through) raises
+    OSError for the chosen connections (identified by the ?cid= of the request)."""
+    import tornado.websocket as tw
+
+    if getattr(tw.WebSocketProtocol13.set_nodelay, "_verif", False):
+        return
+    orig = tw.WebSocketProtocol13.set_nodelay
+
+    def set_nodelay(self, x):
+        q = getattr(getattr(getattr(self, "handler", None), "request", None), "query", "") or ""
+        if isinstance(q, str) and q.startswith("cid=") and q[4:].isdigit() and int(q[4:]) in NODELAY_FAIL:
+            raise OSError(92, "Protocol not available (injected by the harness)")
+        return orig(self, x)
+
+    set_nodelay._verif = True
+    tw.WebSocketProtocol13.set_nodelay = set_nodelay
+
+
 class InterleavingSet(set):
     """Deterministic interleaving injection for the cross-thread hand-off.
 
@@ -354,6 +377,7 @@ class Rig:
         from mopidy.http import Extension, handlers
 
         L.quiet_logs()
+        install_nodelay_fault()
         self.pykka = pykka
         self.handlers = handlers
         self.tmp = tempfile.mkdtemp(prefix="verif-c17-")
@@ -516,11 +540,61 @@ class Client:
                 if ev is not None:
                     ev.set()
                 continue
+            if isinstance(msg, str) and msg.startswith('{"jsonrpc"'):
+                try:
+                    rid = json.loads(msg).get("id")
+                except Exception:  # noqa: BLE001
+                    rid = None
+                with self.lock:
+                    ev = self.sentinels.get(f"rpc-{rid}")
+                if ev is not None:
+                    ev.set()
+                    continue
             self.log.append(msg)
+
+    def sync_rpc(self, timeout=5.0):
+        """Client-driven round trip (a JSON-RPC call over this WebSocket): True when the answer
+        arrived - the connection is alive and everything written before has been read; False
+        when the connection was closed instead."""
+        if self.closed.is_set():
+            return False
+        self._rpc_n = getattr(self, "_rpc_n", 0) + 1
+        rid = f"verif-{self.cid}-{self._rpc_n}"
+        ev = threading.Event()
+        with self.lock:
+            self.sentinels[f"rpc-{rid}"] = ev
+        msg = json.dumps({"jsonrpc": "2.0", "id": rid, "method": "core.get_version"})
+
+        def send():
+            try:
+                self.conn.write_message(msg)
+            except Exception:  # noqa: BLE001 - closed meanwhile
+                pass
+
+        self.rig.cloop.call_soon_threadsafe(send)
+        t0 = time.time()
+        while time.time() - t0 < timeout:
+            if ev.wait(0.002):
+                return True
+            if self.closed.is_set():
+                return False
+        raise RuntimeError("WebSocket neither answered a JSON-RPC call nor closed")
+
+    def find_handler(self, timeout=0.3):
+        t0 = time.time()
+        while self.handler is None and time.time() - t0 < timeout:
+            for h in list(self.rig.handlers.WebSocketHandler.clients):
+                if h.request.query == f"cid={self.cid}":
+                    self.handler = h
+            if self.handler is None:
+                time.sleep(0.002)
+        return self.handler
 
     def sync(self, tag, timeout=5.0):
         """Round trip on the same TCP stream, bypassing the code under test: when the marker
         arrives, everything the server wrote before has been read."""
+        if self.handler is None and not self.closed.is_set():
+            return self.sync_rpc(timeout)
         if self.handler is None or self.closed.is_set():
             return False
         marker = f"{SENTINEL}-{self.cid}-{tag}"
@@ -607,6 +681,7 @@ def gen_schedule(rng, max_clients=5, max_len=40):
     for _ in range(n):
         w = [("emit", 6), ("run", 7 if pending else 0.5),
              ("connect", 3 if (ever < max_clients + 3 and len(connected) < max_clients) else 0),
+             ("connect_fault", 0.5 if ever < max_clients + 3 else 0),
              ("disconnect", 1.5 if connected else 0),
              ("fail", (2.5 if style == "faulty" else 1) if connected else 0),
              ("recover", 1 if failing else 0)]
@@ -622,6 +697,10 @@ def gen_schedule(rng, max_clients=5, max_len=40):
         elif k == "run":
             steps.append(("run",))
             pending = max(0, pending - 1)
+        elif k == "connect_fault":
+            # set_nodelay raises OSError while this client connects (it is never referred to again)
+            steps.append(("connect_fault", ever))
+            ever += 1
         elif k == "connect":
             c = ever
             ever += 1
@@ -947,6 +1026,33 @@ def run_settled(rig, rng, steps, repeats=False, preset_events=None):
         clients[cid] = c
         handler_cid[id(c.handler)] = cid
 
+    connect_faults = {}
+
+    def do_connect_fault(cid):
+        """Connect while the server-side set_nodelay raises OSError.  Afterwards the client is
+        either closed (the unmodified code lets the error abort the connection) or alive - it
+        answers a JSON-RPC call over the socket - and then it is a connected client like any
+        other: every event emitted from now on must reach it."""
+        NODELAY_FAIL.add(cid)
+        try:
+            c = Client(rig, cid)
+            try:
+                c.connect(wait_registered=False)
+            except Exception:  # noqa: BLE001 - refused / aborted during the handshake
+                connect_faults[cid] = "closed"
+                return
+            alive = c.sync_rpc()
+        finally:
+            NODELAY_FAIL.discard(cid)
+        clients[cid] = c
+        if alive:
+            connect_faults[cid] = "alive"
+            if c.find_handler() is not None:
+                handler_cid[id(c.handler)] = cid
+            flat_steps.append(("connect", cid))
+        else:
+            connect_faults[cid] = "closed"
+
     def do_disconnect(cid):
         c = clients[cid]
         c.recover()          # restore the connection object so that the close is orderly
@@ -989,10 +1095,12 @@ def run_settled(rig, rng, steps, repeats=False, preset_events=None):
         for st in steps:
             if died:
                 break
-            if st[0] != "emit":
+            if st[0] not in ("emit", "connect_fault"):
                 flat_steps.append(tuple(st))
             if st[0] == "connect":
                 do_connect(st[1])
+            elif st[0] == "connect_fault":
+                do_connect_fault(st[1])
             elif st[0] == "disconnect":
                 do_disconnect(st[1])
             elif st[0] == "fail":
@@ -1119,7 +1227,7 @@ def run_settled(rig, rng, steps, repeats=False, preset_events=None):
         enc = [encode_event(n, k) for n, k, _c in events]
     except Exception:  # noqa: BLE001
         enc = None
-    return {"event_specs": enc, "logs": logs, "emit_targets": emit_targets, "events": events, "escaped": escaped, "shapes": shapes,
+    return {"connect_faults": connect_faults, "event_specs": enc, "logs": logs, "emit_targets": emit_targets, "events": events, "escaped": escaped, "shapes": shapes,
             "flat_steps": flat_steps, "fired": fired, "actor_died": died}
 
 
@@ -1310,6 +1418,14 @@ def recovered_and_connected(steps, c):
     return conn and any(st[0] in EMITS for st in steps[last:])
 
 
+def eff_steps(steps, obs):
+    """The schedule as the model sees it: a ("connect_fault", c) step is a Connect if the client
+    turned out to be alive afterwards and no step at all if its connection was aborted."""
+    if any(st[0] == "connect_fault" for st in steps):
+        return [tuple(st) for st in obs["flat_steps"]]
+    return steps
+
+
 def py_idle(steps):
     """Nothing in flight at the end of the schedule (mirror of Broadcast.idle on the run)."""
     conn, outbox, queue = 0, 0, 0
@@ -1376,7 +1492,12 @@ def settled_py_monitors(steps, drained, obs):
                         {"client": c, "log": log, "sent_while_connected": sent}))
         healthy = not any(st[0] in ("disconnect", "fail", "recover") and st[1] == c for st in steps)
         if drained and healthy and log != sent and all(i >= 0 for i in log):
-            bad.append(("T2_isolation_complete", f"healthy client received {log} but {sent} were emitted while it was connected",
+            how = ""
+            if (obs.get("connect_faults") or {}).get(c) == "alive":
+                how = (f" (set_nodelay raised OSError while client {c} connected; its handshake completed, it stays "
+                       f"connected and answers JSON-RPC calls over the socket - a connected client)")
+            bad.append(("T2_isolation_complete",
+                        f"healthy client received {log} but {sent} were emitted while it was connected" + how,
                         {"client": c}))
         # T1 completeness after a recovery (mirror of Broadcast.t1_recovered_ok): the client's
         # last fault step is a recovery while it is still connected => its socket works from
@@ -1435,7 +1556,11 @@ def valid_schedule(steps):
             outbox = len(connected) if st[0] == "snap" else 0
         elif st[0] == "handover":
             outbox = max(0, outbox - 1)
-        if st[0] == "connect":
+        if st[0] == "connect_fault":
+            if st[1] in ever:
+                return False
+            ever.add(st[1])
+        elif st[0] == "connect":
             if st[1] in ever:
                 return False
             ever.add(st[1])
@@ -1460,7 +1585,7 @@ NEEDS_DRAIN = ("T2_isolation_complete", "T1_complete_after_recovery")
 
 
 def report_settled(chk, rigbox, steps, drained, repeats, obs):
-    bad = settled_py_monitors(steps, drained, obs)
+    bad = settled_py_monitors(eff_steps(steps, obs), drained, obs)
     if obs.get("actor_died"):
         fresh_rig(rigbox)
         if _death_reported[0]:
@@ -1505,14 +1630,14 @@ def report_settled(chk, rigbox, steps, drained, repeats, obs):
             try:
                 need = mon0 in NEEDS_DRAIN
                 st, _ev, o = run_cand(cand, DRAIN_TAIL if need else [])
-                return any(m == mon0 for m, _w, _d in settled_py_monitors(st, need, o))
+                return any(m == mon0 for m, _w, _d in settled_py_monitors(eff_steps(st, o), need, o))
             except Exception:  # noqa: BLE001
                 return False
         try:
             small = vlib.shrink_list(tagged, fails, max_steps=80)
             need = mon0 in NEEDS_DRAIN
             st2, _ev2, o2 = run_cand(small, DRAIN_TAIL if need else [])
-            bad2 = settled_py_monitors(st2, drained or need, o2)
+            bad2 = settled_py_monitors(eff_steps(st2, o2), drained or need, o2)
             if any(m == mon0 for m, _w, _d in bad2):
                 steps, obs, bad = st2, o2, bad2
         except Exception as e:  # noqa: BLE001
@@ -1524,7 +1649,8 @@ def report_settled(chk, rigbox, steps, drained, repeats, obs):
         if mon == "T4_message_shape":
             key = {"monitor": mon, "event": detail.get("event")}
         chk.monitor_failure(mon, key, what, {"steps": [list(st) for st in steps], "repeats": repeats,
-                                             "drained": py_idle(steps),
+                                             "drained": py_idle(eff_steps(steps, obs)),
+                                             "connect_faults": obs.get("connect_faults"),
                                              "logs": obs["logs"], "events": obs.get("event_specs"), **detail})
 
 
@@ -1632,7 +1758,9 @@ def settled_stage(chk, rigbox, n_cases):
                 rows.append((obs["flat_steps"], drained, obs))
             continue
         obs = run_settled(rig, chk.rng, steps, repeats=repeats)
-        rows.append((steps, drained, obs))
+        rows.append((eff_steps(steps, obs), drained, obs))
+        for cid, how in obs["connect_faults"].items():
+            chk.dist(f"settled:connect-time-fault:{how}")
         if repeats:
             chk.dist("settled:content-identical-events")
         kinds = {s[0] for s in steps}
@@ -1850,7 +1978,7 @@ def replay(chk, rig):
     obs = run_settled(rig, chk.rng, steps, repeats=bool(case.get("repeats")), preset_events=case.get("events"))
     chk.count(1)
     chk.sample({"replayed_steps": [list(st) for st in steps], "logs": obs["logs"]})
-    for mon, what, detail in settled_py_monitors(steps, py_idle(steps), obs):
+    for mon, what, detail in settled_py_monitors(eff_steps(steps, obs), py_idle(eff_steps(steps, obs)), obs):
         chk.monitor_failure(mon, {"monitor": mon, "mode": "settled"}, what,
                             {"steps": [list(st) for st in steps], "logs": obs["logs"], **detail})
     return True
